@@ -515,6 +515,41 @@ O("C05.umask.text", ["C05"], "h_C14m.c", "h_C05_umask_text",
 O("C14.make_task.vtodo", ["C14"], "h_C14m.c", "h_C14_make_task_vtodo",
   "make_task on an execution request (VTODO without DTSTART): a positive DURATION becomes the timeout unchanged, otherwise a DUE time becomes the deadline unchanged, otherwise no limit - for every duration and every DUE value",
   ["make_task"], **EM)
+for nmax, uw, tiers in ((31, 4, ["quick", "thorough"]), (92, 6, ["quick", "thorough"]), (366, 16, ["thorough"])):
+    O("C17.shift.days.n%d" % nmax, ["C17", "C16"], "h_C17s.c", "h_C17_shift_days",
+      "shift() with SHIFT=N (calendar days) on any date 1902..2098 and any N in -%d..%d, N != 0: one date in, one date out, filed under the year it falls in (same / previous / next), exactly N days away from the input (day-number spec)" % (nmax, nmax),
+      ["shift", "unpack_cand", "pack_cand", "__get_ndom"], unwind=uw, defines=["-DSHIFT_NMAX=%d" % nmax], tiers=tiers,
+      solver=["minisat", "kissat", "cadical"], timeout={"quick": 900, "thorough": 3600},
+      native_srcs=[x for x in LIBECHSE if x != "evrrul.c"], native_libs=["-lltdl", "-lm"],
+      assumptions=["ass_bi383 / bi383_next replaced by their native-mode behaviour for a container of at most one value (the real ones: C19.ass_bi383, C19.bi383_next); the native replay links the real bitint.c",
+                   "one candidate per call: the candidate loop treats each member independently (read, not proved)",
+                   "the backward-goto month walk is unwound %d times with unwinding assertions on: complete for the stated N" % uw])
+for bmax, uw, tiers in ((6, 3, ["thorough"]),):
+    O("C17.shift.bdays.n%d" % bmax, ["C17"], "h_C17s.c", "h_C17_shift_bdays",
+      "shift() with SHIFT=NB / -NB (business days, N = 0..%d, both direction flags) on any date 1902..2098: the result is a business day; from a business day it is exactly the N-th business day after / before; from a weekend it is the adjacent business day in the direction of the shift moved on by N or N - 1 business days (-0B: back to Friday)" % bmax,
+      ["shift", "unpack_cand", "pack_cand", "__get_ndom", "ymd_get_wday"], unwind=uw, defines=["-DSHIFT_BMAX=%d" % bmax], tiers=tiers,
+      solver=["minisat", "kissat", "cadical"], timeout={"quick": 900, "thorough": 3600},
+      native_srcs=[x for x in LIBECHSE if x != "evrrul.c"], native_libs=["-lltdl", "-lm"],
+      assumptions=["ass_bi383 / bi383_next replaced by their native-mode behaviour for a container of at most one value (the real ones: C19.ass_bi383, C19.bi383_next); the native replay links the real bitint.c",
+                   "one candidate per call: the candidate loop treats each member independently (read, not proved)",
+                   "whether the move off a weekend counts as one of the N business days is left open (both accepted): the property's text does not fix it",
+                   "the backward-goto month walk is unwound %d times with unwinding assertions on: complete for the stated N" % uw])
+EE = dict(unwind=4, solver=["minisat", "kissat", "cadical"], timeout={"quick": 900, "thorough": 1800},
+          native_srcs=[x for x in LIBECHSE if x != "evrrul.c"], native_libs=["-lltdl", "-lm"],
+          assumptions=["ass_bi383 / bi383_next replaced by their native-mode behaviour for a container of at most one value (the real ones: C19.ass_bi383, C19.bi383_next); the native replay links the real bitint.c",
+                       "one offset per call: the offset loop treats each member independently (read, not proved)", "no BYMONTH/BYMONTHDAY/BYDAY mask"])
+O("C17.eastr", ["C17"], "h_C17s.c", "h_C17_fill_yly_eastr",
+  "fill_yly_eastr: for every year 1901..2099 and every N in -366..366: whatever is selected is a real date of the year exactly N days from Easter Sunday (computus spec), and one day is selected whenever the target lies inside the year",
+  ["fill_yly_eastr", "easter_get_yday", "yd_to_md", "md_match_p"], **EE)
+O("C17.eastr.outside", ["C17"], "h_C17s.c", "h_C17_fill_yly_eastr",
+  "fill_yly_eastr when the day N days from Easter lies in a neighbouring year (region of known finding KF-C17-easter-outside-year)",
+  ["fill_yly_eastr"], defines=["-DREGION_EASTER_OUTSIDE_YEAR"], finding="KF-C17-easter-outside-year", **EE)
+O("C01.fill_yly_yd", ["C01"], "h_C17s.c", "h_C01_fill_yly_yd",
+  "fill_yly_yd (BYYEARDAY=N in a YEARLY rule): for every year 1901..2099 and every N in +-1..366 exactly the N-th day of the year is selected (from the end for negative N), and nothing when the year has no such day (366 / -366 in a common year)",
+  ["fill_yly_yd", "yd_to_md", "yd_get_wday"], **EE)
+O("C01.fill_yly_ycw", ["C01"], "h_C17s.c", "h_C01_fill_yly_ycw",
+  "fill_yly_ycw (BYDAY=nXX in a YEARLY rule): for every year, every weekday and every n in +-1..53 exactly the n-th (n-th last) such weekday of the year is selected, and nothing when the year has only 52 of them",
+  ["fill_yly_ycw", "ycw_get_yday", "yd_to_md", "unpack_cd"], drop_checks=["--undefined-shift-check"], native_cflags=["-fno-sanitize=shift"], **EE)
 O("C09.make_enum", ["C09"], "h_C09e.c", "h_C09_make_enum",
   "make_enum (the time-of-day arrays every filler indexes): for every BYHOUR within 0..23, BYMINUTE within 0..59, BYSECOND within 0..60 and every DTSTART time it writes inside its three arrays, yields 1..24 / 1..60 / 1..61 entries, each a member of its BYxxx set (DTSTART's value when the set is empty), strictly increasing; the loops terminate",
   ["make_enum"], dfcc=True, loop_contracts=True, replace=["bui31_next", "bui63_next"],
